@@ -283,14 +283,17 @@ mod enigma_line {
 }
 
 fn write_class(class_key: &ObjClassNameSlice, class: &ClassNowodeMapping<2>, w: &mut impl Write, indent: usize) -> Result<()> {
+	// only a class written inside its parent stores just the part after the last `$`; a class at file level (also an
+	// inner class whose outer class is not part of the mappings) is read back verbatim and must keep its full names
+	let nested = indent > 0;
 	let indent = "\t".repeat(indent);
 
 	let [_, dst] = class.info.names.names();
 	// get to only the part after $ if it exists
-	let src = class_key.get_inner_class_name().unwrap_or(class_key);
+	let src = if nested { class_key.get_inner_class_name().unwrap_or(class_key) } else { class_key };
 	// the dst name also stores only the inner class name
 	let dst = dst.as_ref()
-		.map(|dst| dst.get_inner_class_name().unwrap_or(dst));
+		.map(|dst| if nested { dst.get_inner_class_name().unwrap_or(dst) } else { dst });
 
 	write!(w, "{indent}CLASS {src}")?;
 	if let Some(dst) = dst {
